@@ -59,11 +59,14 @@ pub struct Encoding {
 	/// write the frames as a CLDC `StackMap` attribute (explicit offsets, full frames only) instead of a StackMapTable;
 	/// every frame of the method must be `SFrame::Full`
 	pub frames_cldc: bool,
+	/// how a method whose model says `empty_local_table` states it: 0 = an empty LocalVariableTable, 1 = an empty
+	/// LocalVariableTypeTable, 2 = both
+	pub empty_local_kind: u8,
 }
 
 impl Default for Encoding {
 	fn default() -> Encoding {
-		Encoding { pool: PoolOrder::FirstUse, pads: Vec::new(), forms: Vec::new(), default_form: 0, attr_order: AttrOrder::Default, split_tables: false, frames_extended: false, frames_cldc: false }
+		Encoding { pool: PoolOrder::FirstUse, pads: Vec::new(), forms: Vec::new(), default_form: 0, attr_order: AttrOrder::Default, split_tables: false, frames_extended: false, frames_cldc: false, empty_local_kind: 0 }
 	}
 }
 
@@ -783,6 +786,17 @@ impl Asm<'_> {
 				lw.u16(*line);
 			}
 			list.push(("LineNumberTable", lw.b));
+		}
+		if c.empty_line_table && c.line_numbers.is_empty() {
+			list.push(("LineNumberTable", vec![0, 0]));
+		}
+		if c.empty_local_table && c.local_vars.is_empty() && c.local_var_types.is_empty() {
+			if self.enc.empty_local_kind != 1 {
+				list.push(("LocalVariableTable", vec![0, 0]));
+			}
+			if self.enc.empty_local_kind != 0 {
+				list.push(("LocalVariableTypeTable", vec![0, 0]));
+			}
 		}
 		for (name, table) in [("LocalVariableTable", &c.local_vars), ("LocalVariableTypeTable", &c.local_var_types)] {
 			for r in chunks(table.len(), self.enc.split_tables) {
